@@ -293,6 +293,8 @@ def c05(trace, end):
                 break
     nfinal_calls = sum(1 for ev in trace if ev[0] in ('exec', 'cancel') and ev[3])
     if end:
+        for oid, field, was, now_ in end.get('final_changed', [])[:1]:
+            probs.append(('final-order-changed', {'field': field}, 'order %d was %s = %r when it became final and is %r at the end of the session' % (oid, field, was, now_)))
         member = {}
         for t in end['trades']:
             for oid in t['orders']:
